@@ -192,6 +192,12 @@ fn process_swaps_for_single_pool<C: ContentAddrStore>(
             }
         })
         .fold(0u128, |a, b| a.saturating_add(b.0));
+    // a pool with an empty side has no price (e.g. after all its liquidity was withdrawn): leave the requests unsettled
+    if pool_state.lefts.saturating_add(total_lefts) == 0
+        || pool_state.rights.saturating_add(total_rights) == 0
+    {
+        return;
+    }
     // transmute coins
     let (left_withdrawn, right_withdrawn) = pool_state.swap_many(total_lefts, total_rights);
 
@@ -278,6 +284,10 @@ fn process_deposits_for_single_pool<C: ContentAddrStore>(
         .map(|tx| tx.outputs[1].value.0)
         .fold(0u128, |a, b| a.saturating_add(b));
 
+    // depositing nothing on one side would create a pool without a price: leave the requests unsettled
+    if total_lefts == 0 || total_rights == 0 {
+        return;
+    }
     let total_mtsqrt = total_lefts.sqrt().saturating_mul(total_rights.sqrt());
     // main logic here
     let total_liqs = if let Some(mut pool_state) = state.pools.get(pool) {
@@ -374,6 +384,10 @@ fn process_withdrawals_for_single_pool<C: ContentAddrStore>(
         .fold(0u128, |a, b| a.saturating_add(b));
     // get the state
     let mut pool_state = state.pools.get(pool).unwrap();
+    // nothing to redeem, or more than the pool has ever issued: leave the requests unsettled
+    if total_liqs == 0 || total_liqs > pool_state.liqs {
+        return;
+    }
     let (total_left, total_write) = pool_state.withdraw(total_liqs);
     state.pools.insert(*pool, pool_state);
     // divvy up the lefts and rights
